@@ -18,6 +18,9 @@ inductive Barrier where
   | lock       -- inside  g.Lock() … g.Unlock()  of the same function, same object
   | deferLock  -- after   g.Lock(); defer g.Unlock()  in the same function, same object
   | confined   -- the function is only reachable from regions holding g (callers in `via`)
+  | rlock      -- inside  g.RLock() … g.RUnlock()  (sync.RWMutex read lock): guards READS only
+  | deferRLock -- after   g.RLock(); defer g.RUnlock()
+  | confinedR  -- only reachable from regions holding g at least for reading
   | onceBody   -- inside (or only reachable from) the function handed to g.Do
   | afterOnce  -- after g.Do(…) in the same function (or only reachable from such places)
   | fresh      -- the object was allocated in this call chain and is not shared yet
@@ -48,16 +51,25 @@ structure Site where
   via     : List String
   deriving Repr
 
+/-- what orders a goroutine's writes before the spawner reads them -/
+inductive Join where
+  | waitGroup  -- `defer wg.Done()` in the goroutine, `wg.Wait()` in the spawner
+  | chanClose  -- `defer close(done)` in the goroutine, `<-done` in the spawner
+  | chanRecv   -- the goroutine sends once on a channel; the spawner receives once per goroutine
+  | none
+  deriving DecidableEq, Repr
+
 /-- one `go` statement -/
 structure GoSite where
   fn            : String
   file          : String
   line          : Nat
   callee        : String
-  deferDone     : Bool         -- the goroutine starts with `defer wg.Done()`
-  waitLine      : Nat          -- line of the `wg.Wait()` that joins it (0 = none)
+  join          : Join
+  joinLine      : Nat          -- line of the join in the spawning function (0 = none)
   sharedWrites  : List String  -- variables of the spawning function assigned by the goroutine
-  touchedBefore : Bool         -- one of them is used by the spawner or a sibling before the Wait
+  touchedBefore : Bool         -- one of them (or another goroutine's slot) is used by the spawner or
+                               -- a sibling before the join is complete
   slotParam     : Bool         -- it writes through a parameter bound to `&xs[i]`, i the loop index
   deriving Repr
 
@@ -69,7 +81,13 @@ structure TempFileFacts where
   retriesOnExist : Bool  -- the loop tests os.IsExist and tries the next index
   deriving Repr
 
-/-- the barrier means "the guard of the variable is held / the once has completed" -/
+/-- the barrier means "the read lock of the variable's RWMutex is held" (other readers may hold it
+too, writers may not) -/
+def Barrier.holdsReadLock : Barrier → Bool
+  | .rlock | .deferRLock | .confinedR => true
+  | _ => false
+
+/-- the barrier means "the guard of the variable is held exclusively / the once has completed" -/
 def Barrier.holdsGuard : GuardKind → Barrier → Bool
   | .mutex, .lock | .mutex, .deferLock | .mutex, .confined => true
   | .once, .onceBody | .once, .afterOnce => true
@@ -81,7 +99,8 @@ def Barrier.threadLocal : Barrier → Bool
   | _ => false
 
 /-- Is this access ordered with every conflicting access of the same variable?
-* mutex-guarded variable: the mutex is held, or the object is thread-local;
+* mutex-guarded variable: the mutex is held, or the object is thread-local; with a
+  `sync.RWMutex` a READ may also hold only the read lock — a WRITE under a read lock is rejected;
 * once-guarded variable: writes only inside the once body (or thread-local), reads inside the
   body or after `Do` returned;
 * a read in a `Close` method is accepted (teardown). -/
@@ -89,7 +108,7 @@ def siteOk (g : GuardSpec) (s : Site) : Bool :=
   s.guardId == g.guardId &&
   (s.barrier.threadLocal ||
    (match g.kind, s.barrier with
-    | .mutex, b => b.holdsGuard .mutex
+    | .mutex, b => b.holdsGuard .mutex || (b.holdsReadLock && !s.write)
     | .once, .onceBody => true
     | .once, .afterOnce => !s.write
     | _, _ => false) ||
@@ -105,16 +124,17 @@ def allSitesOk (gs : List GuardSpec) (ss : List Site) : Bool :=
 
 /-- every guarded variable is actually used under its guard (the table is not vacuous) -/
 def allGuardsUsed (gs : List GuardSpec) (ss : List Site) : Bool :=
-  gs.all fun g => ss.any fun s => s.varId == g.varId && s.barrier.holdsGuard g.kind
+  gs.all fun g => ss.any fun s => s.varId == g.varId && (s.barrier.holdsGuard g.kind || s.barrier.holdsReadLock)
 
 /-- writes to copy-on-write structs happen only while the struct is fresh -/
 def immutableOk (ss : List Site) : Bool := ss.all fun s => s.barrier.threadLocal
 
-/-- a goroutine is either joined by a WaitGroup before its results are read, its writes being
-disjoint from everything the spawner and its siblings touch before the join, or it is one of the
-known detached helpers that share no unguarded state (`go openBrowser(url, o)`). -/
+/-- a goroutine is either joined (WaitGroup, closed channel, or one receive per goroutine) before
+anything it writes is read, its writes being disjoint from everything the spawner and its
+siblings touch before the join, or it is one of the known detached helpers that share no
+unguarded state (`go openBrowser(url, o)`). -/
 def goOk (g : GoSite) : Bool :=
-  (g.deferDone && g.waitLine > g.line && !g.touchedBefore && (!g.sharedWrites.isEmpty || g.slotParam)) ||
+  (g.join != .none && g.joinLine > g.line && !g.touchedBefore) ||
   (g.callee == "openBrowser" && g.fn == "serveWebInterface")
 
 /-- every nesting edge (outer, inner) goes from a lower to a strictly higher rank: the nesting
